@@ -149,7 +149,7 @@ PROPS["C03"] = dict(
           # a Send after any Broker call (successful or early-returning) returns: no call leaves a lock behind
           dict(harness=BROKER_H, entries=r"^H_C12_every_call_releases$", params=dict(quick={}, thorough={}), shards=dict(quick=4, thorough=4))],
     must_reach=["C12.every-call.end"],
-    bounds=dict(quick="all 15 ordered shapes with P<=3 pipelines x N_i in {2,3} nodes; all schedules, cancel instants (never/anywhere), outcomes, node delays", thorough="P<=3 x N_i in {2,3,5} (40 ordered shapes) + P=4 x N_i in {2,3} (16) + (2,2,2,5), (5,3,2,2); larger 4- and 5-pipeline shapes are outside the claim (solver budget)"),
+    bounds=dict(quick="all 15 ordered shapes with P<=3 pipelines x N_i in {2,3} nodes; all schedules, cancel instants (never/anywhere), outcomes, node delays", thorough="P<=3 x N_i in {2,3,5} (40 ordered shapes) + P=4 x N_i in {2,3} (16) + (2,2,2,5), (5,3,2,2), 4x4; larger 4- and 5-pipeline shapes are outside the claim (solver budget)"),
     assumptions=["received Status values are havocked in the automata (control never depends on them; contents are checked on the sequential harness)", "hand-written Go channel/select/WaitGroup/context semantics of the composer (eo_compose.py) is trusted; latency in seconds is not expressible (enabledness instead)"],
     trusted_base=COMMON_TRUST + ["eo_compose.py: event-order semantics of unbuffered channels, select, close, WaitGroup, context cancellation"],
 )
@@ -160,7 +160,7 @@ PROPS["C02"]["jobs"].append(dict(EO_JOB, eo_queries=["twin", "S"]))
 PROPS["C02"]["level"] = "model_checking"
 PROPS["C02"]["explanation"] += " " + EO_NOTE + "Queries S: exactly one status is received per pipeline when not cancelled; never more statuses than pipelines (each received status is matched to one real send)."
 for _p in ("C01", "C02"):
-    PROPS[_p]["bounds"] = dict(quick=PROPS[_p]["bounds"]["quick"] + "; EO: 15 ordered shapes P<=3 x N in {2,3}", thorough=PROPS[_p]["bounds"]["thorough"] + "; EO: P<=3 x N in {2,3,5}, P=4 x N in {2,3}, (2,2,2,5), (5,3,2,2)")
+    PROPS[_p]["bounds"] = dict(quick=PROPS[_p]["bounds"]["quick"] + "; EO: 15 ordered shapes P<=3 x N in {2,3}", thorough=PROPS[_p]["bounds"]["thorough"] + "; EO: P<=3 x N in {2,3,5}, P=4 x N in {2,3}, (2,2,2,5), (5,3,2,2), 4x4")
 PROPS["C19"] = dict(
     level="other",
     explanation="Lockset analysis (as C04) over the library's own nodes: every ordered pair of core node kinds (Filter, JSONFormatter, JSONFormatterFilter) processing the same *Event, shared or separate instances; Event.FormattedAs/Format pairs; writer.Sink Process||Process/Reopen; gated.Filter Process||Process/FlushAll/Close; cloudevents Process||Process/Rotate. Conflicting accesses without a common lock are replayed natively under go test -race. Plus the two-event sequential harnesses (a stored []byte must not alias memory reused by a later Process call).",
